@@ -990,6 +990,29 @@ def t_opvalues( ctx ):
                  'a value list padded with blanks ( (SSTRING)"ef", "g h"  or  1, 2, 3 for text types ) no longer means the values it spells: the blank after a comma belongs to the next value and a quote behind it is literal' )
     else:
         res.ok( src, c, "value lists are split at ',', quoted with '\"', blanks after a separator discarded ( effective csv options evaluated )" )
+    # what the reader yields is what is converted: the data of the operation is the type's cast applied to each value as the reader delivered
+    # it - what stands between the quotes of a text value ( leading / trailing blanks ) is part of the value.  The expression stored as
+    # <op>['data'] is evaluated with a marking cast on a list of three values
+    rd = stmt_of( src, c )
+    LST = None
+    if isinstance( rd, ast.Assign ):
+        tg = rd.targets[0]
+        LST = tg.elts[0].id if isinstance( tg, ( ast.Tuple, ast.List )) and len( tg.elts ) == 1 and isinstance( tg.elts[0], ast.Name ) else ( tg.id if isinstance( tg, ast.Name ) else None )
+    datas = [ a for a in ast.walk( fn ) if isinstance( a, ast.Assign ) and any( isinstance( t, ast.Subscript ) and try_fold( t.slice ) == 'data' for t in a.targets ) and LST and LST in names_in( a.value ) ]
+    if len( datas ) == 1:
+        vals = [ ' padded ', '12', 'x y' ]
+        CAST = next(( n for n in names_in( datas[0].value ) if n not in ( LST, 'list', 'map', 'tuple' )), 'cast' )
+        try:
+            got = fold( datas[0].value, { LST: list( vals ), CAST: ( lambda v: ( 'cast', v )) } )
+        except NoFold as exc:
+            raise AnalysisError( "parse_operations: the expression stored as <op>['data'] not foldable: %s" % exc )
+        if list( got ) == [ ( 'cast', v ) for v in vals ]:
+            res.ok( src, datas[0], "the operation's data is the cast of each value as the reader delivered it" )
+        else:
+            res.bad( src, datas[0], "parse_operations: values %r are converted as %r" % ( vals, [ g[1] if isinstance( g, tuple ) and len( g ) == 2 else g for g in list( got ) ] ),
+                     'the values are altered between the reader and the cast: blanks inside the quotes of a text value ( " padded " ) are lost - the tag is written with another text than the operation spells, status 0' )
+    elif LST:
+        raise AnalysisError( "parse_operations: store of <op>['data'] from the reader's values not found" )
     return res
 
 
